@@ -4,7 +4,7 @@ use crate::rules::{
     Context, FlawlessRule, RuleConfiguration, RuleConfigurationError, RuleMetadata, RuleProperties,
 };
 
-use super::verify_no_rule_properties;
+use super::{verify_no_rule_properties, RemoveCommentProcessor, RemoveWhitespacesProcessor};
 
 #[derive(Debug, Default)]
 struct Processor {}
@@ -54,8 +54,20 @@ impl NodeProcessor for Processor {
                 .expect("method name is expected to exist");
 
             *call.mutate_prefix() = FieldExpression::new(new_prefix.clone(), method_name).into();
-            call.mutate_arguments()
-                .insert(0, Expression::from(new_prefix));
+
+            // the receiver is now written twice: the copy passed as argument must not
+            // duplicate the comments and spacing attached to the original tokens
+            let mut receiver_argument = Expression::from(new_prefix);
+            DefaultVisitor::visit_expression(
+                &mut receiver_argument,
+                &mut RemoveCommentProcessor::default(),
+            );
+            DefaultVisitor::visit_expression(
+                &mut receiver_argument,
+                &mut RemoveWhitespacesProcessor::default(),
+            );
+
+            call.mutate_arguments().insert(0, receiver_argument);
         }
     }
 }
